@@ -5,7 +5,9 @@ set -u
 export GOFLAGS=-mod=mod GOPROXY=off GOSUMDB=off GOTOOLCHAIN=local
 P=$1; shift
 git -C /repo apply "$P" || { echo "PATCH DOES NOT APPLY"; exit 9; }
-trap 'git -C /repo checkout -- . >/dev/null 2>&1' EXIT
+# the evidence files describe the unchanged tree: keep them as they are
+EVB=$(mktemp -d /tmp/vfev.XXXXXX); cp /verif/evidence/*.json $EVB/ 2>/dev/null
+trap 'git -C /repo checkout -- . >/dev/null 2>&1; cp $EVB/*.json /verif/evidence/ 2>/dev/null; rm -rf $EVB' EXIT
 (cd /repo && go build ./...) || { echo "MUTANT DOES NOT BUILD"; exit 9; }
 for prop in "$@"; do
   out=$(cd /verif && timeout 1500 ./bin/vcheck -property $prop 2>&1)
